@@ -14,7 +14,7 @@ CLAIM_TEXT = ("Theorems (coq/Props/C11.v, no axioms) over the model of Dialog::n
               "sip-ua crate and the extracted model.")
 CLAIM_NOTE = ("Trusted: Coq kernel; hand-written model Model/C11.v validated by differential runs; URIs/name-addrs are opaque strings in the model "
               "(their text form is C01's subject), the harness compares ezk's own rendering of each component. The ACK for a 2xx is built "
-              "by a private function reached only through a session refresh; its model is proved, its bytes are not observed here.")
+              "by a private function reached only through a session refresh: refresh scenarios put it on the wire and its number is compared with the re-INVITE's.")
 TRUSTED = [
     "Coq 8.16.1 kernel; no axioms",
     "hand-written model coq/Model/C11.v of sip-ua/src/dialog/{mod,client_builder}.rs, validated by the correspondence run",
